@@ -199,6 +199,7 @@ class Recorder:
         self.violations = []
         self.sigs = {}
         self.samples = []
+        self.auto_samples = []  # fallback when a workload stores no sample itself
         self.cases = 0
         self.case = None
         self.source = "directed"
@@ -251,6 +252,8 @@ class Recorder:
     def sig(self, signature, nontrivial=True):
         key = json.dumps(jsonable(signature), sort_keys=True)
         self.sigs[key] = bool(nontrivial) or self.sigs.get(key, False)
+        if len(self.auto_samples) < MAX_SAMPLES and nontrivial:
+            self.auto_samples.append({"case": self.case, "signature": jsonable(signature)})
 
     def sample(self, obj):
         if len(self.samples) < MAX_SAMPLES:
@@ -269,7 +272,7 @@ class Recorder:
             "known_counts": dict(self.known_counts),
             "violations": self.violations,
             "sigs": self.sigs,
-            "samples": self.samples,
+            "samples": self.samples or self.auto_samples,
             "notes": dict(self.notes),
         }
 
